@@ -43,6 +43,11 @@ CHECKS = {
     ref="DESIGN.md §3 C05",
     note="Exempt by documentation: negative lengths / modulus < 2, parse-advance of ProcessXor/RotateLeft/NullStripped (read to end of stream). Sibling references under sizeof are expected to give SizeofError.",
     technique="bounded-exhaustive enumeration of parameter sites + Hypothesis generated specs; oracle = exception class and measured stream advance"),
+ "C18": dict(
+    text="Generated nested shapes with uniquely named members: every truncation offset of every canonical encoding, mutated canonical data rejected by validation, values with one member made unbuildable (out of range, wrong length, unencodable, unknown label), and sizeof on shapes with unsizable/context-dependent members. The independent reference model (and a static sizeof analysis) records which read or validation fails first and the names enclosing it; ConstructError.path must equal the operation marker followed by exactly those names.",
+    ref="DESIGN.md §3 C18",
+    note="Trusted: reference model's read order (validated on the unchanged tree). Macro-internal names of documented expansions (PrefixedArray count/items) count as declared names. Failure-absorbing constructs excluded from the truncation clause.",
+    technique="property-based testing with exhaustive truncation offsets per case; oracle = failing-member path predicted by a reference model"),
 }
 
 NOT_APPLICABLE = [dict(property_id=p, reason="check not yet built in this revision of /verif (planned, see DESIGN.md §3)") for p in ALL if p not in CHECKS]
